@@ -11,7 +11,7 @@ use lipe_find_parser::parse;
 use proptest::prelude::*;
 use serde_json::{json, Value};
 
-pub const ALPHABET: [char; 17] = ['"', '\\', '~', '%', '(', ')', ';', '#', '\'', '\n', '\t', '\u{1}', '\u{7f}', 'é', '日', 'a', ' '];
+pub const ALPHABET: [char; 18] = ['"', '\\', '~', '%', '(', ')', ';', '#', '\'', '\n', '\t', '\u{1}', '\u{7f}', 'é', '日', 'a', ' ', '*'];
 
 pub const CARRIERS: [&str; 30] = [
     "name+framed", "iname+framed", "path+framed", "ipath+framed", "pool+framed", "xattr+framed", "xattr-match-attr+framed", "xattr-match-value+framed", "printf-literal+framed", "printf-octal+framed",
@@ -296,7 +296,7 @@ pub fn run(ctx: &Ctx) -> Report {
         st
     });
     total.merge(ex);
-    total.exhaustive_parts.push(format!("every string of length 1..={max_len} over the 17-symbol hostile alphabet x {} carriers", CARRIERS.len()));
+    total.exhaustive_parts.push(format!("every string of length 1..={max_len} over the 18-symbol hostile alphabet x {} carriers", CARRIERS.len()));
 
     // every three-digit octal escape of the format language, in both output modes: the program must
     // read as two forms with the structure of the program for '\\101'
